@@ -22,6 +22,8 @@ import c07_ops as O
 
 DERIVE = ("outOfPlace", "view", "copy", "contiguous")
 CHAINS = ["zero_", "add_", "mul_", "apply_", "fill_", "set_", "__setitem__/index"]
+SECOND = ["permute", "transpose", "__getitem__/basic", "select", "exclude", "clone", "to_tensordict", "flatten_keys", "unsqueeze", "copy",
+          "clone/shallow", "detach", "contiguous", "unbind", "split", "view", "__getitem__/advanced", "expand"]
 VERIF_DIR = __import__("pathlib").Path(__file__).resolve().parent.parent
 
 
@@ -125,6 +127,59 @@ def pokeable(t):
     return isinstance(t, torch.Tensor) and t.dtype == P.DT and t.numel() > 0 and nonoverlapping(t) and (not t.requires_grad or t.is_leaf)
 
 
+
+def result_payload(world, prov, src_names, res_leaves, n0, cls):
+    """per result leaf: [name, source entry (by value provenance) | None, selector, values, aliased?]"""
+    rl, alias_ok = [], {}
+    for n, t in res_leaves:
+        vals = world.tok.read(t)
+        sid = world.sid_of(t, create=False)
+        old = sid is not None and sid < n0
+        src, sel = None, []
+        if vals:
+            cands = None
+            for v in vals:
+                s = set(prov.get(v, {}).keys())
+                cands = s if cands is None else (cands & s)
+                if not cands:
+                    break
+            if cands:
+                src = n if n in cands else sorted(cands)[0]
+                sel = [prov[v][src] for v in vals]
+        else:
+            src = n if n in src_names else (src_names[0] if src_names else None)
+        if cls == "outOfPlace":
+            aliased = bool(old and src is not None)
+            alias_ok[n] = aliased or not old
+        else:
+            aliased = False
+            alias_ok[n] = True
+        rl.append([n, src, sel, vals, aliased])
+    return rl, alias_ok
+
+
+def kind_of(x):
+    from tensordict import LazyStackedTensorDict, is_tensorclass
+    from tensordict._td import _SubTensorDict
+    if isinstance(x, LazyStackedTensorDict):
+        return "lazy"
+    if isinstance(x, _SubTensorDict):
+        return "sub"
+    if is_tensorclass(x):
+        return "tensorclass"
+    return "regular"
+
+
+class _Pseudo:
+    """what a recipe needs from a container, for an operation applied to a previous result"""
+    def __init__(self, td, cont):
+        self.td, self.cnt, self.kind, self.extra = td, cont.cnt, kind_of(td), []
+
+    @property
+    def locked(self):
+        return bool(getattr(self.td, "is_locked", False))
+
+
 class Case:
     pass
 
@@ -206,33 +261,7 @@ def run_case(run: Run, spec, tmp):
         objs.append(res_leaves)
     # ---- payload
     writes = [[n, world.tok.read(t)] for n, t in self1] if cls == "inplace" else []
-    rl = []
-    res_alias_ok = {}
-    for n, t in res_leaves:
-        vals = world.tok.read(t)
-        sid = world.sid_of(t, create=False)
-        old = sid is not None and sid < n0
-        src, sel = None, []
-        if vals:
-            cands = None
-            for v in vals:
-                s = set(prov.get(v, {}).keys())
-                cands = s if cands is None else (cands & s)
-                if not cands:
-                    break
-            if cands:
-                src = n if n in cands else sorted(cands)[0]
-                sel = [prov[v][src] for v in vals]
-        else:
-            nm = [m for m, _ in self0]
-            src = n if n in nm else (nm[0] if nm else None)
-        if cls == "outOfPlace":
-            aliased = bool(old and src is not None)
-            res_alias_ok[n] = aliased or not old
-        else:
-            aliased = False
-            res_alias_ok[n] = True
-        rl.append([n, src, sel, vals, aliased])
+    rl, res_alias_ok = result_payload(world, prov, [m for m, _ in self0], res_leaves, n0, cls)
     struct = []
     struct_ok = True
     if cls == "rebind":
@@ -304,12 +333,54 @@ def run_case(run: Run, spec, tmp):
                 else:
                     steps.append(["op", chain, 3, ["w"] + [[n, world.tok.read(t)] for n, t in res_after], ["r"], ["s"]])
                     real_states.append([P.canon_real_obj(world, n0, ob) for ob in objs])
+    # ---- a second public operation applied to the result (view of a view, copy of a view, view of a copy ...)
+    op2 = spec[7] if len(spec) > 7 else None
+    res2_leaves, doc2, second = [], None, False
+    if op2 and not chain and cls in ("view", "copy", "contiguous") and res_leaves and op2 in O.R:
+        from tensordict import TensorDictBase, is_tensorclass
+        tgt = result
+        if isinstance(tgt, (tuple, list)) and tgt:
+            tgt = tgt[0]
+        if isinstance(tgt, TensorDictBase) or is_tensorclass(tgt):
+            pc = _Pseudo(tgt, cont)
+            row2 = f"{op2}%{pc.kind}" if (f"{op2}%{pc.kind}" in run.classes or f"{op2}%{pc.kind}" in run.deviations) else op2
+            cls2 = run.deviations.get(row2) or run.classes.get(row2)
+            doc2 = run.classes.get(row2) or run.classes.get(op2)
+            if cls2 in ("view", "copy", "contiguous") and isinstance(result, (TensorDictBase,)) or (cls2 in ("view", "copy", "contiguous") and is_tensorclass(result)):
+                ctx2 = O.Ctx(pc, rng, variant)
+                rec2 = O.R[op2]
+                try:
+                    with time_limit(20):
+                        r2 = rec2[variant % len(rec2)](ctx2)()
+                    ok2 = not ctx2.args
+                except Exception:
+                    ok2 = False
+                if ok2:
+                    # provenance by value needs distinct cells: a copy that duplicated elements (td[[0, 0]], repeat) cannot be followed
+                    for n, t in res_leaves:
+                        rd_ = world.tok.read(t)
+                        if len(set(rd_)) != len(rd_) and len(set(P.elem_offsets(t))) == len(rd_):
+                            ok2 = False
+                if ok2:
+                    prov2 = {}
+                    for n, t in res_leaves:
+                        for pos, v in enumerate(world.tok.read(t)):
+                            prov2.setdefault(v, {}).setdefault(n, pos)
+                    res2_leaves = P.leaves_of(r2)
+                    rl2, _ = result_payload(world, prov2, [m for m, _ in res_leaves], res2_leaves, n0, cls2)
+                    objs.append(res2_leaves)
+                    steps.append(["op", row2, 3, ["w"], ["r"] + rl2, ["s"]])
+                    real_states.append([P.canon_real_obj(world, n0, ob) for ob in objs])
+                    case["op2"] = row2
+                    second = True
     # ---- sentinel writes
     poke_base = len(real_states) - 1
     pokes = []
     targets = []
     if cls in ("view", "copy", "contiguous"):
         targets += [(3, n, t) for n, t in res_leaves if pokeable(t)][:2]
+    if second:
+        targets += [(4, n, t) for n, t in res2_leaves if pokeable(t)][:2]
     targets += [(0, n, t) for n, t in self1 if pokeable(t)][:2]
     if cont.kind == "sub":
         targets += [(1, n, t) for n, t in cont.extra if pokeable(t)][:1]
@@ -401,6 +472,20 @@ def run_case(run: Run, spec, tmp):
                         seen |= set(leaf[-1])
                 if toks & seen:
                     verdicts.append(f"sentinel written through source entry {n} is read through the copy")
+    if second and ocls in ("view", "copy") and doc2 in ("view", "copy"):
+        shares_expected = ocls == "view" and doc2 == "view"
+        for i, (oi, n, toks) in enumerate(pokes):
+            if oi != 4:
+                continue
+            stp = real_states[poke_base + i + 1]
+            seen = set()
+            for leaf in stp[0] + stp[1]:
+                if leaf[1] != "empty":
+                    seen |= set(leaf[-1])
+            if shares_expected and not (toks <= seen):
+                verdicts.append(f"sentinel written through a view ({case['op2']}) of a view is not read through the source")
+            if not shares_expected and (toks & seen):
+                verdicts.append(f"sentinel written through the result of {case['op2']} after a {ocls} op is read through the source")
     if lost_update:
         verdicts.append(lost_update)
     if chained and ocls in ("view", "copy"):
@@ -426,7 +511,7 @@ def run_case(run: Run, spec, tmp):
             if same != bool(s.is_contiguous()):
                 verdicts.append(f"contiguous(): entry {n} contiguous={s.is_contiguous()} but shares={same}")
     req = sx("c07.run", init, ["steps"] + steps)
-    meta = {"case": case, "status": "ok", "verdicts": verdicts, "n_pokes": len(pokes), "chained": chained, "deviation": row in run.deviations, "struct_ok": struct_ok,
+    meta = {"case": case, "status": "ok", "verdicts": verdicts, "n_pokes": len(pokes), "chained": chained, "second": second, "deviation": row in run.deviations, "struct_ok": struct_ok,
             "n_self": len(self0), "n_res": len(res_leaves), "alias_ok": all(res_alias_ok.values()) if res_alias_ok else True}
     return req, real_states, meta
 
@@ -670,7 +755,8 @@ def main():
             chain = rng.choice(CHAINS) if (table[op] in ("view", "copy", "contiguous") and rng.random() < 0.5) else None
             if chain is None and f"{op}%{kind}" in run.deviations and rng.random() < 0.7:
                 chain = rng.choice(CHAINS)
-            specs.append((kind, layout, hist, op, rng.randrange(64), rng.randrange(1 << 30), chain))
+            op2 = rng.choice(SECOND) if (chain is None and table[op] in ("view", "copy", "contiguous") and rng.random() < 0.6) else None
+            specs.append((kind, layout, hist, op, rng.randrange(64), rng.randrange(1 << 30), chain, op2))
     if not quick:
         # full grid kind x layout for the operations the property names
         named = [k for k in probed if table[k] in ("inplace", "view", "copy", "contiguous")]
@@ -697,6 +783,8 @@ def main():
             run.count("case.history_len", len(spec[2]))
             if meta.get("chained"):
                 run.count("case.chained", f"{cls}+{spec[6]}")
+            if meta.get("second"):
+                run.count("case.second_op", f"{cls}+{meta['case'].get('op2')}")
             if meta["status"] != "ok":
                 run.case(("case",) + tuple(map(str, spec)), nontrivial=False)
                 run.count("raised." + spec[0], spec[3])
